@@ -176,6 +176,10 @@ def requested():
     return list(_REQUESTED)
 
 
+FLOAT_LIBM = {"fminf", "fmaxf", "fabsf", "sqrtf", "powf", "expf", "logf", "log10f", "floorf", "ceilf", "roundf", "truncf", "fmodf", "sinf", "cosf", "tanf",
+              "sinhf", "coshf", "tanhf", "asinf", "acosf", "atanf", "atan2f", "hypotf", "cbrtf", "exp2f", "log2f", "log1pf", "expm1f", "copysignf", "nanf"}
+
+
 def single_precision(fn):
     """declarations, casts and literals of type float in a (normalised, helpers inlined) kernel: the data are float64 and
     every property is stated for double arithmetic, so a float temporary silently drops 29 bits"""
@@ -194,6 +198,13 @@ def single_precision(fn):
             out.append((n.get("_line", 0), f"cast to {q}"))
         elif k == "FloatingLiteral" and isf:
             out.append((n.get("_line", 0), f"float literal {n.get('value')}"))
+        elif k == "CallExpr":
+            c = n.get("inner", [{}])[0]
+            while isinstance(c, dict) and c.get("kind") in ("ImplicitCastExpr", "ParenExpr"):
+                c = c.get("inner", [{}])[0]
+            nm = (c.get("referencedDecl") or {}).get("name") if isinstance(c, dict) else None
+            if nm in FLOAT_LIBM:
+                out.append((n.get("_line", 0), f"single-precision library function {nm}()"))
         for c in n.get("inner", []) or []:
             rec(c)
     rec(fn.get("body") or {})
